@@ -287,7 +287,14 @@ func C05Work(cfgPath string) int {
 				if cfg.Mode == "hist" {
 					t0 = int64(time.Since(t00))
 				}
-				res, raw := c05CallRaw(op, inputs[i])
+				in := inputs[i]
+				if len(in) > 0 && len(in) <= 4096 && r.Intn(2) == 0 {
+					// a short-lived private copy: after a collection the same address
+					// holds another input of the same length (a memo keyed by the
+					// string's address)
+					in = string(append([]byte(nil), in...))
+				}
+				res, raw := c05CallRaw(op, in)
 				if op == 0 && raw != "" {
 					// look again at a fingerprint returned a while ago
 					slot := k & 63
